@@ -6,8 +6,8 @@ multiplexer and priority select of the frontend
 namespace Gatery.C03
 open Gatery.Nodes BV4
 
-theorem staticShift_eq (dir : Dir) (fill : Fill) (a : BV4) (amount : Nat) :
-    staticShift dir fill a amount = evalRewire (staticShiftRanges dir fill a.length amount) [some a] := rfl
+theorem staticShiftCore_eq (dir : Dir) (fill : Fill) (a : BV4) (amount : Nat) :
+    staticShiftCore dir fill a amount = evalRewire (shiftRangesCore dir fill a.length amount) [some a] := rfl
 
 theorem bit_slice (a : BV4) (off w i : Nat) : (Spec.slice a off w).bit i = if i < w then a.bit (off + i) else .x := by
   simp [Spec.slice, bit_tab]
@@ -64,10 +64,10 @@ theorem keep_eq_slice (a : BV4) (amount off : Nat) (h : amount ≤ a.length) :
   · have : a.length - amount = 0 := by omega
     rw [this]; simp [Spec.slice, tab]
 
-theorem staticShift_right_parts (fill : Fill) (a : BV4) (amount : Nat) (h : amount ≤ a.length) (hw : a.length < 2 ^ 64) :
-    staticShift .right fill a amount = Spec.slice a amount (a.length - amount) ++ fillPart .right fill a amount := by
-  rw [staticShift_eq]
-  simp only [staticShiftRanges, rightShiftRewireOp]
+theorem staticShiftCore_right_parts (fill : Fill) (a : BV4) (amount : Nat) (h : amount ≤ a.length) (hw : a.length < 2 ^ 64) :
+    staticShiftCore .right fill a amount = Spec.slice a amount (a.length - amount) ++ fillPart .right fill a amount := by
+  rw [staticShiftCore_eq]
+  simp only [shiftRangesCore, rightShiftRanges]
   rw [evalRewire_append, evalRewire_keep, keep_eq_slice a amount amount h]
   congr 1
   cases fill
@@ -80,10 +80,10 @@ theorem staticShift_right_parts (fill : Fill) (a : BV4) (amount : Nat) (h : amou
     · rw [wrap_sub_one (Nat.pos_of_ne_zero h0) hw, evalRewire_replicate_bit]
   · simp only [fillPart]; rw [evalRewire_one, evalRange_input0]
 
-theorem staticShift_left_parts (fill : Fill) (a : BV4) (amount : Nat) (h : amount ≤ a.length) (hw : a.length < 2 ^ 64) :
-    staticShift .left fill a amount = fillPart .left fill a amount ++ Spec.slice a 0 (a.length - amount) := by
-  rw [staticShift_eq]
-  simp only [staticShiftRanges, leftShiftRewireOp]
+theorem staticShiftCore_left_parts (fill : Fill) (a : BV4) (amount : Nat) (h : amount ≤ a.length) (hw : a.length < 2 ^ 64) :
+    staticShiftCore .left fill a amount = fillPart .left fill a amount ++ Spec.slice a 0 (a.length - amount) := by
+  rw [staticShiftCore_eq]
+  simp only [shiftRangesCore, leftShiftRanges]
   rw [evalRewire_append, evalRewire_keep, keep_eq_slice a amount 0 h]
   congr 1
   cases fill
@@ -96,8 +96,8 @@ theorem length_fillPart (dir : Dir) (fill : Fill) (a : BV4) (amount : Nat) : (fi
   cases dir <;> cases fill <;> simp [fillPart, length_slice]
 
 /-- for `amount ≤ width` the static shift / rotate is the list-of-bits definition (all directions and fill modes) -/
-theorem staticShift_eq_spec (dir : Dir) (fill : Fill) (a : BV4) (amount : Nat) (h : amount ≤ a.length)
-    (hw : a.length < 2 ^ 64) : staticShift dir fill a amount = Spec.shift dir fill a amount := by
+theorem staticShiftCore_eq_spec (dir : Dir) (fill : Fill) (a : BV4) (amount : Nat) (h : amount ≤ a.length)
+    (hw : a.length < 2 ^ 64) : staticShiftCore dir fill a amount = Spec.shift dir fill a amount := by
   by_cases hz : a.length = 0
   · have ha : a = [] := List.eq_nil_of_length_eq_zero hz
     have hk : amount = 0 := by omega
@@ -106,7 +106,7 @@ theorem staticShift_eq_spec (dir : Dir) (fill : Fill) (a : BV4) (amount : Nat) (
   have hpos : 0 < a.length := Nat.pos_of_ne_zero hz
   cases dir
   · -- left: fill part below, kept part above
-    rw [staticShift_left_parts fill a amount h hw]
+    rw [staticShiftCore_left_parts fill a amount h hw]
     have hfl : Spec.fillOf .left .last a = a.bit 0 := by
       simp only [Spec.fillOf, hz, if_false]
     cases fill <;> simp only [Spec.shift, Spec.shiftLeft, Spec.rotLeft, hfl] <;> try simp only [Spec.fillOf]
@@ -131,7 +131,7 @@ theorem staticShift_eq_spec (dir : Dir) (fill : Fill) (a : BV4) (amount : Nat) (
       have hlt : amount < a.length := by omega
       rw [Nat.mod_eq_of_lt hlt, mod_of_range (by omega) (by omega)]; congr 1; omega
   · -- right: kept part below, fill part above
-    rw [staticShift_right_parts fill a amount h hw]
+    rw [staticShiftCore_right_parts fill a amount h hw]
     have hfl : Spec.fillOf .right .last a = a.bit (a.length - 1) := by
       simp only [Spec.fillOf, hz, if_false]
     cases fill <;> simp only [Spec.shift, Spec.shiftRight, Spec.rotRight, hfl] <;> try simp only [Spec.fillOf]
@@ -171,22 +171,75 @@ theorem length_evalRewire (rs : List Range) (ins : Ins) : (evalRewire rs ins).le
 
 /-- **the defect (DESIGN.md §6 F4), for every width, direction and fill mode**: a static shift or rotate by more than
     the width builds a result that is `amount` bits wide instead of `width` bits -/
-theorem staticShift_length_of_gt (dir : Dir) (fill : Fill) (a : BV4) (amount : Nat) (h : amount > a.length) :
-    (staticShift dir fill a amount).length = amount := by
-  rw [staticShift_eq, length_evalRewire]
+theorem staticShiftCore_length_of_gt (dir : Dir) (fill : Fill) (a : BV4) (amount : Nat) (h : amount > a.length) :
+    (staticShiftCore dir fill a amount).length = amount := by
+  rw [staticShiftCore_eq, length_evalRewire]
   have hn : ¬ amount < a.length := by omega
   cases dir
-  · simp only [staticShiftRanges, leftShiftRewireOp, if_neg hn, List.append_nil]
+  · simp only [shiftRangesCore, leftShiftRanges, if_neg hn, List.append_nil]
     cases fill
     · exact rangesWidth_one _
     · exact rangesWidth_one _
     · exact rangesWidth_replicate _ _
     · exact rangesWidth_one _
-  · simp only [staticShiftRanges, rightShiftRewireOp, if_neg hn, List.nil_append]
+  · simp only [shiftRangesCore, rightShiftRanges, if_neg hn, List.nil_append]
     cases fill
     · exact rangesWidth_one _
     · exact rangesWidth_one _
     · exact rangesWidth_replicate _ _
     · exact rangesWidth_one _
+
+/-! ## the lowering as it is now: the amount is normalised first -/
+
+theorem staticShift_eq_core (dir : Dir) (fill : Fill) (a : BV4) (amount : Nat) :
+    staticShift dir fill a amount = staticShiftCore dir fill a (normAmount fill a.length amount) := by
+  cases dir <;> rfl
+
+theorem normAmount_le (fill : Fill) (w amount : Nat) : normAmount fill w amount ≤ w := by
+  unfold normAmount
+  split
+  · split
+    · omega
+    · exact Nat.le_of_lt (Nat.mod_lt _ (by omega))
+  · exact Nat.min_le_right _ _
+
+/-- the definition itself is insensitive to the normalisation: shifting by `≥ width` is all fill, rotating is periodic -/
+theorem spec_shift_normAmount (dir : Dir) (fill : Fill) (a : BV4) (amount : Nat) :
+    Spec.shift dir fill a (normAmount fill a.length amount) = Spec.shift dir fill a amount := by
+  by_cases hz : a.length = 0
+  · have ha : a = [] := List.eq_nil_of_length_eq_zero hz
+    subst ha
+    cases dir <;> cases fill <;> simp [Spec.shift, Spec.shiftLeft, Spec.shiftRight, Spec.rotLeft, Spec.rotRight, tab]
+  have hpos : 0 < a.length := Nat.pos_of_ne_zero hz
+  cases fill
+  case rotate =>
+    simp only [normAmount, if_true, hz, if_false]
+    cases dir
+    · simp only [Spec.shift, Spec.rotLeft, Nat.mod_mod]
+    · simp only [Spec.shift, Spec.rotRight]
+      apply ext_bit (by simp)
+      intro i hi
+      simp only [length_tab] at hi
+      rw [bit_tab, bit_tab, if_pos hi, if_pos hi]
+      congr 1
+      rw [Nat.add_mod, Nat.mod_mod, ← Nat.add_mod]
+  all_goals
+    simp only [normAmount, reduceCtorEq, if_false]
+    cases dir <;> simp only [Spec.shift, Spec.shiftLeft, Spec.shiftRight] <;>
+      (apply ext_bit (by simp); intro i hi; simp only [length_tab] at hi
+       rw [bit_tab, bit_tab, if_pos hi, if_pos hi]) <;>
+      (by_cases hk : amount ≤ a.length
+       · rw [Nat.min_eq_left hk]
+       · rw [Nat.min_eq_right (by omega)]
+         first
+         | rw [if_pos (by omega), if_pos (by omega)]
+         | rw [if_neg (by omega), if_neg (by omega)])
+
+/-- **static shifts and rotates, every amount, every direction, every fill mode, every width** (`SignalBitshiftOp.cpp` after
+    `c4028c8`): the rewire node the frontend builds is the list-of-bits definition — a shift by `≥ width` is all fill, a
+    rotate is periodic in the width, and the result keeps the operand's width -/
+theorem staticShift_eq_spec (dir : Dir) (fill : Fill) (a : BV4) (amount : Nat) (hw : a.length < 2 ^ 64) :
+    staticShift dir fill a amount = Spec.shift dir fill a amount := by
+  rw [staticShift_eq_core, staticShiftCore_eq_spec dir fill a _ (normAmount_le fill a.length amount) hw, spec_shift_normAmount]
 
 end Gatery.C03
